@@ -3,10 +3,22 @@
 import json, subprocess
 ALL = ["C%02d" % i for i in range(1, 21)]
 H = "deviation-bounded exhaustive DFS (stateless, prefix replay) over scan histories of the real controller under virtual time, with canonical-state revisit pruning"
+NOTE = "Simulated Kubernetes/AWS (sim/), synctest virtual clock, go1.26.8 build of /repo with -tags verif; informer wiring, leader election and main() outside the boundary."
+G = "bounded-exhaustive enumeration of a stated finite grid, each case executed on the real code and compared with an exact reference"
+def hc(design, text, engine="H", level="model_checking", technique=H, note=NOTE):
+    return dict(level=level, design=design, technique=technique, text=text, note=note, engine=engine)
 CHECKS = {
- "C01": dict(level="model_checking", design="3/C01", technique=H,
-   text="Every history of 9 scans with at most 2 (quick) / 3 (thorough) environment deviations or injected API faults/kills over the stated alphabet is executed on the real controller and AWS provider; the removal-safety predicate is evaluated on every terminate/delete call of every scan. Right level: the property quantifies over histories, restarts and fault points, and the implementation itself is cheap enough to enumerate.",
-   note="Simulated Kubernetes/AWS (sim/), synctest virtual clock, go1.26.8 build of /repo with -tags verif; informer wiring and main() outside the boundary."),
+ "C01": hc("3/C01", "Every history of 9 scans with at most 2 (quick) / 3 (thorough) environment deviations or injected API faults/kills over the stated alphabet is executed on the real controller and AWS provider; the removal-safety predicate is evaluated on every terminate/delete call of every scan. The property quantifies over histories, restarts and fault points, and the implementation itself is cheap enough to enumerate."),
+ "C02": hc("3/C02", "All 9-scan histories (<= 2 quick / 3 thorough deviations) from 200 % utilisation with a 3-scan cool-down, in SetDesiredCapacity and fleet mode, including below-minimum, force-tainted and expired nodes inside the window, rejected requests and restarts: no write for the group inside the window reconstructed from the journal, and action resumes once it has elapsed."),
+ "C03": hc("3/C03", "Complete grid of small cluster states x rates x bands x configured/auto-discovered minimum over three consecutive real scans, plus the taint-bound and restore oracles on the C01/C02 history scenarios.", engine="G+H", technique=G+"; plus "+H),
+ "C04": hc("3/C04", "Complete grid of (max_nodes, cloud max) pairs x nodes x tainted x utilisation x mode x kind on single real scans, plus the bound and clamp oracles along the C02 histories: every requested target <= min(max_nodes, cloud max), landing exactly on it when clamped, no request without headroom.", engine="G+H", technique=G+"; plus "+H),
+ "C06": hc("3/C06", "Complete grid of states x threshold triples x rate pairs x exact utilisation at band interiors and at every threshold exactly and +/-1 unit (CPU- and memory-driven), starve and max-age triggers, on single real scans against an exact-rational reference; plus the band oracle along the C01/C02 histories.", engine="G+H", technique=G+"; plus "+H),
+ "C07": hc("3/C07", "Every single-scan case of the need x tainted-age-pattern x list-order x force-removal x clamp x mode grid, each explored with every failing get/update position of the untaint loop (deviation-bounded DFS): newest-first reuse, remainder requested on top of the real desired size, no purchase while a tainted node is available."),
+ "C09": hc("3/C09", "All 9-scan histories (<= 2 / 3 deviations) with cordon/uncordon of any node at any point of its life; no write reaches a node cordoned in the view and every decision equals the reference computed without cordoned capacity (odd-sized cordoned nodes make counting them visible)."),
+ "C10": hc("3/C10", "All 9-scan histories (<= 2 / 3 deviations) with the annotation set/emptied/removed at any slot; safety predicate on every removal plus a metamorphic twin execution without annotations: identical taint/untaint/cloud actions, removals differing exactly by the protected nodes."),
+ "C11": hc("3/C11", "All histories (<= 2 / 3 deviations) driving a dry group through every decision branch with either switch, with tagging, auto-discovery and from zero nodes: empty write journal from provider construction on; A dry / B live compared with a twin in which A is live."),
+ "C12": hc("3/C12", "All 6-scan histories (<= 2 / 3 deviations or faults confined to group a) over 2 and 3 groups in every processing order including the default group: write attribution, and every other group's journal equal to the unperturbed execution; only the not-in-group condition may abort the loop."),
+ "C15": hc("3/C15", "Complete grid of node shapes (foreign taints in every order, escalator taint at every position, effects, flags) through the real taint helpers, plus histories (<= 3 / 4 deviations) that taint, untaint and re-taint under stale views: every PUT is diffed against the API store.", engine="G+H", technique=G+"; plus "+H),
 }
 PENDING_REASON = "check not built yet in this session (planned, see DESIGN.md section 3); not claimed until it exists"
 def main():
